@@ -198,6 +198,7 @@ let run_scenario (sc : scn) (ops : string list list) : unit =
                  { lock_sched = sc.lk; unlock_sched = sc.ul } (List.rev sc.scripts)) in
   pr "scn %s\n" sc.name;
   List.iter (fun toks ->
+      pr "> %s\n" (String.concat " " toks);
       match toks with
       | [ "s" ] -> ignore (exec d w (SOp OService))
       | [ "S"; k ] -> for _ = 1 to ios k do ignore (exec d w (SOp OService)) done
@@ -216,7 +217,7 @@ let run_scenario (sc : scn) (ops : string list list) : unit =
       | [ "dc"; i; b ] -> ignore (exec d w (SOp (OSetCmdDisable (nat_of_int (ios i), b = "1"))))
       | [ "dg"; i; b ] -> ignore (exec d w (SOp (OSetGroupDisable (nat_of_int (ios i), b = "1"))))
       | [ "p"; slot; hx ] -> ignore (exec d w (SPoke (nat_of_int (ios slot), bytes_of_hex hx)))
-      | [ "N" ] -> pr "N\n"; ignore (exec d w SReinit)
+      | [ "N" ] -> ignore (exec d w SReinit)
       | [ "B" ] -> pr "B %s %s\n" (hex_of_bytes (st !w).cbuf) (hex_of_bytes (st !w).ubuf)
       | _ -> failwith ("bad op: " ^ String.concat " " toks))
     ops;
